@@ -497,7 +497,9 @@ class Lark(Serialize, Generic[_Return_T]):
                     assert cache_sha256 is not None
                     payload_f = BytesIO()
                     pickle.dump(used_files, payload_f)
-                    self.save(payload_f, _LOAD_ALLOWED_OPTIONS)
+                    # `edit_terminals` has already been applied to the terminals that are saved; the callback
+                    # itself isn't needed to load them, and often can't be pickled (lambda, closure)
+                    self.save(payload_f, _LOAD_ALLOWED_OPTIONS | {'edit_terminals'})
                     payload = payload_f.getvalue()
                     key = cache_sha256.encode('utf8')
                     f.write(b'%s %d %s\n' % (key, len(payload), sha256_digest(key + payload).encode('utf8')))
